@@ -98,7 +98,7 @@ def rule_alias(ctx) -> RuleResult:
                 continue
             g, s = m[2].getter, m[2].setter
             n_fields += 1
-            returns_self = any(isinstance(r, ast.Return) and unparse(r.value) == f"self.{f}" for r in ast.walk(g.node))
+            returns_self = any(isinstance(r, ast.Return) and _may_be_field(r.value, f, g) for r in ast.walk(g.node))
             arg = s.params[1] if len(s.params) > 1 else None
             by_ref = any(
                 isinstance(a, ast.Assign) and any(unparse(t) == f"self.{f}" for t in a.targets) and isinstance(a.value, ast.Name) and a.value.id == arg
@@ -128,6 +128,22 @@ def rule_alias(ctx) -> RuleResult:
     if n_fields < 300:
         raise AnalysisError(f"C12.ALIAS: only {n_fields} harvested (class, field) pairs found")
     return res
+
+
+def _may_be_field(e, f, g) -> bool:
+    """The expression may evaluate to the very object stored in self.<f>."""
+    if e is None:
+        return False
+    if unparse(e) == f"self.{f}":
+        return True
+    if isinstance(e, ast.BoolOp):
+        return any(_may_be_field(v, f, g) for v in e.values)
+    if isinstance(e, ast.IfExp):
+        return _may_be_field(e.body, f, g) or _may_be_field(e.orelse, f, g)
+    if isinstance(e, ast.Name):
+        return any(isinstance(a, ast.Assign) and any(isinstance(t, ast.Name) and t.id == e.id for t in a.targets) and _may_be_field(a.value, f, g)
+                   for a in ast.walk(g.node))
+    return False
 
 
 def _rebound(fn, name) -> bool:
